@@ -194,7 +194,8 @@ def gen_machine_program(r: Rng, feat: Dict[str, bool], size: int) -> Dict:
                ("lcd", 6 if feat.get("lcd") else 0), ("kil", 3 if feat.get("kil_reads") else 0),
                ("strobe", 2 if feat.get("kil_reads") else 0),
                ("romw", 3 if feat.get("rom_writes") else 0),
-               ("cardrw", 4 if feat.get("card_rw") and not in_loop else 0)]
+               ("cardrw", 4 if feat.get("card_rw") and not in_loop else 0),
+               ("xram", 5 if feat.get("xram") else 0)]
         kind = r.weighted([p for p in pal if p[1] > 0])
         if kind == "nop":
             a.op("NOP")
@@ -273,6 +274,15 @@ def gen_machine_program(r: Rng, feat: Dict[str, bool], size: int) -> Dict:
             a.lmn("ST_A", addr, tag="ROM_W")
             if not in_loop:
                 a.lmn("LD_A", addr, tag="ROM_R")
+        elif kind == "xram":
+            # store into a RAM-expansion overlay (first / last bytes and just outside it), then read it back
+            xs, xn = feat["xram"]
+            addr = r.choice([xs, xs + 1, xs + xn - 1, xs + xn - 1, xs + xn - 2, xs - 1, xs + xn, xs + xn // 2])
+            if not in_loop:
+                a.op("MV_A", r.range(1, 255))
+            a.lmn("ST_A", addr, tag="XRAM_W")
+            if not in_loop:
+                a.lmn("LD_A", addr, tag="XRAM_R")
         elif kind == "cardrw":
             # read-modify-write of a cell in the memory-card window (whatever a previous machine left there shows up
             # in A and in the scratch cell)
